@@ -241,14 +241,57 @@ fn relpath_probe() {
     println!("{{\"probe\":\"relpath\",\"summary\":true,\"checked\":{},\"failures\":{}}}", checked, fails);
 }
 
+// ---------------------------------------------------------------- cycles: add a sequence of ids, then check membership
+fn cycles_probe() {
+    let ids = ["1", "2", "4", "12", "24", "42", "124"];
+    let mut checked = 0usize;
+    let mut fails = 0usize;
+    let mut seqs: Vec<Vec<&str>> = vec![vec![]];
+    for a in ids.iter() {
+        seqs.push(vec![*a]);
+        for b in ids.iter() {
+            if a != b {
+                seqs.push(vec![*a, *b]);
+                for c in ids.iter() {
+                    if c != a && c != b {
+                        seqs.push(vec![*a, *b, *c]);
+                    }
+                }
+            }
+        }
+    }
+    for held in seqs.iter() {
+        for q in ids.iter() {
+            let refused = redo::verif::cycles::cycles_probe(held, q);
+            let member = held.contains(q);
+            checked += 1;
+            if refused != member {
+                if fails < 40 {
+                    println!(
+                        "{{\"probe\":\"cycles\",\"input\":\"add {} then check {}\",\"output\":\"{}\",\"expected\":\"{}\",\"clause\":\"{}\"}}",
+                        held.join(","),
+                        q,
+                        if refused { "CyclicDependency" } else { "Ok" },
+                        if member { "CyclicDependency" } else { "Ok" },
+                        if member { "cycles.check_detects_ancestor" } else { "cycles.check_no_false_alarm" }
+                    );
+                }
+                fails += 1;
+            }
+        }
+    }
+    println!("{{\"probe\":\"cycles\",\"summary\":true,\"checked\":{},\"failures\":{}}}", checked, fails);
+}
+
 fn main() {
     match env::args().nth(1).as_deref() {
         Some("tokens-exit") => tokens_exit(),
         Some("deps") => deps(),
+        Some("cycles") => cycles_probe(),
         Some("normpath") => normpath_probe(),
         Some("relpath") => relpath_probe(),
         _ => {
-            eprintln!("usage: redo-replay tokens-exit|deps|normpath|relpath");
+            eprintln!("usage: redo-replay tokens-exit|deps|cycles|normpath|relpath");
             std::process::exit(2);
         }
     }
